@@ -11,6 +11,7 @@ import (
 	"strings"
 	"sync"
 	"sync/atomic"
+	"verif/internal/core"
 
 	"github.com/tonistiigi/fsutil"
 	"verif/internal/tree"
@@ -35,6 +36,10 @@ type synthFS struct {
 	// EOFWithData makes readers return their final bytes together with io.EOF
 	// (legal under the io.Reader contract; tar entry readers do this).
 	EOFWithData bool
+	// ShortReads, when set, makes every Read return a seeded number of bytes
+	// between 1 and what was asked for (a pipe / decompressor style reader).
+	ShortReads *core.Rand
+	srMu       sync.Mutex
 
 	opens  atomic.Int64
 	reads  atomic.Int64
@@ -46,6 +51,21 @@ var errInjected = errors.New("injected fault")
 
 func newSynthFS(t *tree.Tree) *synthFS {
 	return &synthFS{t: t, WalkErrAt: -1, opened: map[string]int{}}
+}
+
+// newSynthFSReaders is newSynthFS with conforming but unusual readers chosen
+// from R: final bytes delivered together with io.EOF, a fixed chunk limit, or
+// seeded short reads.
+func newSynthFSReaders(t *tree.Tree, R *core.Rand) *synthFS {
+	s := newSynthFS(t)
+	s.EOFWithData = R.P(1, 2)
+	switch R.Intn(4) {
+	case 0:
+		s.ChunkMax = core.Pick(R, []int{1, 1000, 5000, 32768})
+	case 1:
+		s.ShortReads = R.Fork()
+	}
+	return s
 }
 
 func (s *synthFS) Walk(ctx context.Context, target string, fn gofs.WalkDirFunc) error {
@@ -148,6 +168,15 @@ func (f *synthFile) Read(b []byte) (int, error) {
 	}
 	if f.s.ChunkMax > 0 && len(b) > f.s.ChunkMax {
 		b = b[:f.s.ChunkMax]
+	}
+	if f.s.ShortReads != nil && len(b) > 1 {
+		f.s.srMu.Lock()
+		n := 1 + f.s.ShortReads.Intn(len(b))
+		if f.s.ShortReads.P(1, 3) && n > 700 {
+			n = 1 + f.s.ShortReads.Intn(700)
+		}
+		f.s.srMu.Unlock()
+		b = b[:n]
 	}
 	if f.fail >= 0 {
 		if f.n >= f.fail {
